@@ -16,8 +16,9 @@ RULE = ("a case = a history of operations on a fresh OrdinalInstance plus a regr
         "alternatives {1,2}; random: histories of 1-8 operations over <= 6 alternatives with arbitrary ids, repeated "
         "votes, weak / incomplete votes, numpy arrays, populate_* with the sampler's raw rows captured (the model applies its own mirror of "
         "prefsampling_ordinal_wrapper: op c02.wrapper compared as a dict, and the run on AppendVoteMap(wrapper rows)). "
-        "non-trivial = the history uses >= 2 different entry points and some vote is added more than once")
-EXHAUSTIVE = {"quick": "all histories of <= 2 operations over the 73-operation universe on alternatives {1,2}",
+        "non-trivial = the history uses >= 2 different entry points and some vote is added more than once. ")
+EXHAUSTIVE = {"quick": "all histories of <= 2 operations over the 73-operation universe on alternatives {1,2}; all histories "
+                       "append | recompute_cardinality_param() | append over the 29-operation sub-universe",
               "thorough": "all histories of <= 2 operations over the 73-operation universe on alternatives {1,2}; all "
                           "histories of 3 operations over a 29-operation sub-universe"}
 TRUSTED = ["modelled (mirror): OrdinalInstance.append_order / append_order_array / append_order_list / append_vote_map "
@@ -30,6 +31,12 @@ TRUSTED = ["modelled (mirror): OrdinalInstance.append_order / append_order_array
            "iteration order of the Python set of alternatives in append_order_array / append_order_list is not "
            "modelled: alternatives_name is compared as a set of (id, name) pairs",
            "numpy: conversion of array entries to dict keys / str() of numpy integers in append_order_array"]
+ROUND5 = ("purity / aliasing: after every step full_profile(), vote_map(), flatten_strict() are called, their results "
+          "modified in place by the caller (extend with junk orders / clear / reverse / dict update) and everything is "
+          "read again; common.snapshot before / after every read-only call; maintenance calls "
+          "(recompute_cardinality_param, infer_type, flatten_strict, full_profile, vote_map) between appends; numpy.int64 "
+          "counts and ids in vote maps and append_order; history and twin replayed alternately on two live instances")
+RULE = RULE + "round 5: " + ROUND5
 ASSUMPTIONS = ["well-formed votes: at least one class, classes non-empty, no alternative twice in a vote; vote-map "
                "multiplicities >= 1; alternative ids are positive integers",
                "the fresh instance (empty history) has data_type 'toi' while infer_type() says 'soc' "
@@ -42,7 +49,9 @@ THEOREMS_FOR_OP = {"c02.history": "C02_reachable, C02_views, C02_type, C02_sanit
 CHUNK = 25
 
 DT = {"soc": 0, "soi": 1, "toc": 2, "toi": 3, None: 4}
-K_ORDER, K_ARRAY, K_LIST, K_VM, K_POP, K_BARE, K_ROWS = 0, 1, 2, 3, 4, 5, 6
+K_ORDER, K_ARRAY, K_LIST, K_VM, K_POP, K_BARE, K_ROWS, K_MAINT = 0, 1, 2, 3, 4, 5, 6, 7
+MAINT = {0: "recompute_cardinality_param()", 1: "infer_type()", 2: "flatten_strict() + caller modifies the result",
+         3: "full_profile() + caller modifies the result", 4: "vote_map() + caller modifies the result"}
 
 
 # ---------------------------------------------------------------------------------------------
@@ -59,6 +68,8 @@ def votes_of_op(op):
         return [o for o, m in d for _ in range(m)]
     if k == K_ROWS:
         return [[[a] for a in row] for row in d]
+    if k == K_MAINT:
+        return []
     raise ValueError(k)
 
 
@@ -107,7 +118,17 @@ def regroup(votes, rng, nonempty):
         h.insert(rng.randrange(len(h) + 1), rng.choice([[K_LIST, []], [K_VM, []], [K_ARRAY, []]]))
     if nonempty and not h:
         h.append(rng.choice([[K_LIST, []], [K_VM, []], [K_ARRAY, []]]))
-    return h
+    return sprinkle(h, rng, 0.25)
+
+
+def sprinkle(h, rng, p):
+    """maintenance / accessor calls between appends (they add no vote)"""
+    out = []
+    for op in h:
+        out.append(op)
+        if rng.random() < p:
+            out.append([K_MAINT, [rng.choice([0, 0, 0, 1, 2, 3, 3, 4])]])
+    return out
 
 
 def mk_case(h, seed, **tags):
@@ -252,6 +273,38 @@ def corner_history(rng):
     return h
 
 
+def distinct_history(rng):
+    m = rng.randint(2, 5)
+    alts = rng.sample(range(1, 12), m)
+    strict_only = rng.random() < 0.5
+    votes = []
+    for _ in range(rng.randint(2, 7)):
+        v = rand_vote(rng, alts, 0.0 if strict_only else 0.3, rng.choice([0.0, 0.4]))
+        if v not in votes:
+            votes.append(v)
+    h = []
+    i = 0
+    while i < len(votes):
+        batch = votes[i:i + rng.randint(1, 3)]
+        i += len(batch)
+        strict = all(is_strict_vote(v) for v in batch)
+        kinds = [K_LIST, K_VM]
+        if strict and len(batch) == 1:
+            kinds += [K_ORDER] * 2
+        if strict and len(set(len(v) for v in batch)) == 1:
+            kinds += [K_ARRAY] * 2
+        k = rng.choice(kinds)
+        if k == K_ORDER:
+            h.append([k, [c[0] for c in batch[0]]])
+        elif k == K_ARRAY:
+            h.append([k, [[c[0] for c in v] for v in batch]])
+        elif k == K_LIST:
+            h.append([k, batch])
+        else:
+            h.append([k, [[v, 1] for v in batch]])
+    return sprinkle(h, rng, 0.5)
+
+
 def rand_perm_of(rng, o):
     a = [c[0] for c in o]
     rng.shuffle(a)
@@ -273,10 +326,20 @@ def generate(tier, seed):
             for b in u3:
                 for c in u3:
                     out.append(mk_case([a, b, c], len(out), exh=3))
+    # append | recompute_cardinality_param() | append  (the maintenance call must not detach any alias / counter)
+    u3 = universe(False)
+    for a in u3:
+        for b in u3:
+            out.append(mk_case([a, [K_MAINT, [0]], b], len(out), exh=3, mode="append-recompute-append"))
     nrand = 1500 if tier == "quick" else 20000
     for i in range(nrand):
         h, mode = rand_history(rng, i)
+        if i % 2 == 0:
+            h = sprinkle(h, rng, 0.3)
         out.append(mk_case(h, rng.randrange(10 ** 9), rnd=1, mode=mode))
+    # no vote repeated (every multiplicity is 1), maintenance / accessor calls in between
+    for i in range(400 if tier == "quick" else 4000):
+        out.append(mk_case(distinct_history(rng), rng.randrange(10 ** 9), rnd=1, mode="all-multiplicities-1"))
     # corner: the first weak (tied) order of `orders` is incomplete and is the only incomplete order (-> toi),
     # entered in every rotation / through several entry points; and histories made of vote maps only
     for i in range(120 if tier == "quick" else 1500):
@@ -335,15 +398,62 @@ def _guard(fn, *a):
     return guarded(fn, *a)
 
 
-def observe(inst, raised):
+JUNK1 = ((10 ** 9 + 7,),)
+JUNK2 = ((10 ** 9 + 9,), (10 ** 9 + 7,))
+
+
+def poison(obj, mode):
+    """what a caller may do with a returned list / dict: it is his object"""
+    try:
+        if isinstance(obj, dict):
+            if mode % 3 == 0:
+                for k in list(obj):
+                    obj[k] = obj[k] + 7
+                obj[JUNK1] = 5
+            elif mode % 3 == 1:
+                obj.clear()
+            else:
+                obj.update({JUNK2: 1, JUNK1: 2})
+        elif isinstance(obj, list):
+            if mode % 3 == 0:
+                obj += [JUNK1, JUNK2]
+            elif mode % 3 == 1:
+                obj.clear()
+            else:
+                obj.append(JUNK1)
+                obj.reverse()
+    except (TypeError, AttributeError):
+        pass            # immutable result: nothing a caller could do to it
+
+
+def observe(inst, raised, mode=0):
     from preflibtools.instances import sanity
     from preflibtools.properties import basic
+    from . import common
+    # accessors first; their results are recorded, then modified in place by the "caller"; the instance must not
+    # notice (purity + no aliasing of internal state), and a second call must give the same answers
+    before = common.snapshot(inst)
+    fp = inst.full_profile()
+    fp1 = proto.norm(list(fp))
+    vm = inst.vote_map()
+    vm1 = proto.norm([[o, int(k)] for o, k in vm.items()])
+    fs = inst.flatten_strict()
+    fs1 = proto.norm([[list(o), int(k)] for o, k in fs])
+    inst.infer_type()
+    poison(fp, mode)
+    poison(vm, mode + 1)
+    poison(fs, mode + 2)
+    d = common.snap_diff(before, common.snapshot(inst))
+    if d:
+        raise RuntimeError("the instance changed when the caller modified the objects returned by full_profile() / "
+                           "vote_map() / flatten_strict() (or an accessor is not pure): " + d)
     mult = [[o, int(k)] for o, k in inst.multiplicity.items()]
     names = [[int(a), proto.text(n)] for a, n in inst.alternatives_name.items()]
     vm = inst.vote_map()
     errs = sanity.orders(inst) if not raised else None
-    has = len(inst.orders) > 0
-    return proto.norm([
+    if errs is not None:
+        errs = list(errs)
+    res = proto.norm([
         mult,
         list(inst.orders),
         inst.num_voters,
@@ -368,7 +478,12 @@ def observe(inst, raised):
         1 if raised else 0,
         list(inst.preferences),
         DT.get(inst.data_type, 9),
+        fp1, vm1, fs1,
     ])
+    d = common.snap_diff(before, common.snapshot(inst))
+    if d:
+        raise RuntimeError("a read-only call (views, basic.py statistics, sanity.orders) modified the instance: " + d)
+    return res
 
 
 class _Capture:
@@ -437,8 +552,21 @@ def apply_op(inst, op, variant, sink=None):
     """returns the resolved operation (populate -> the captured vote map; bare list -> list of orders)"""
     import numpy as np
     k, d = op
+    if k == K_MAINT:
+        code = d[0]
+        if code == 0:
+            inst.recompute_cardinality_param()
+        elif code == 1:
+            inst.infer_type()
+        elif code == 2:
+            poison(inst.flatten_strict(), variant)
+        elif code == 3:
+            poison(inst.full_profile(), variant)
+        else:
+            poison(inst.vote_map(), variant)
+        return op
     if k == K_ORDER:
-        inst.append_order(tuple(d) if variant % 2 == 0 else list(d))
+        inst.append_order([tuple(d), list(d), np.array(d, dtype=np.int64)][variant % 3])
         return op
     if k == K_ARRAY:
         if d:
@@ -457,7 +585,14 @@ def apply_op(inst, op, variant, sink=None):
         inst.append_order_list(os_)
         return op
     if k == K_VM:
-        inst.append_vote_map({_t(o): m for o, m in d})
+        if variant % 2 == 1:
+            # a tally made with numpy (np.unique(..., return_counts=True)): counts (and ids) are numpy integers
+            if variant % 4 == 3:
+                inst.append_vote_map({tuple(tuple(np.int64(a) for a in c) for c in o): np.int64(m) for o, m in d})
+            else:
+                inst.append_vote_map({_t(o): np.int64(m) for o, m in d})
+        else:
+            inst.append_vote_map({_t(o): m for o, m in d})
         return op
     if k == K_POP:
         which, nv, na, p3, seed = d
@@ -485,34 +620,60 @@ def apply_op(inst, op, variant, sink=None):
     raise ValueError(k)
 
 
-def replay(h, seed):
-    from preflibtools.instances import OrdinalInstance
-    inst = OrdinalInstance()
-    obs = [observe(inst, False)]
-    resolved = []
-    bare_raised = False
-    wrap_calls = []
-    for i, op in enumerate(h):
+class Replay:
+    def __init__(self, h, seed):
+        from preflibtools.instances import OrdinalInstance
+        self.h, self.seed, self.i = h, seed, 0
+        self.inst = OrdinalInstance()
+        self.obs = [observe(self.inst, False, seed)]
+        self.resolved, self.bare_raised, self.wrap_calls = [], False, []
+        self.done = not h
+
+    def step(self):
+        if self.done:
+            return
+        op = self.h[self.i]
         try:
-            r = apply_op(inst, op, seed + i, wrap_calls)
+            r = apply_op(self.inst, op, self.seed + self.i, self.wrap_calls)
         except TypeError:
             if op[0] == K_BARE:
-                bare_raised = True        # not claimed by the property: the history ends here
-                break
+                self.bare_raised = True        # not claimed by the property: the history ends here
+                self.done = True
+                return
             raise
-        resolved.append(r)
-        obs.append(observe(inst, False))
-    return resolved, obs, bare_raised, wrap_calls
+        self.resolved.append(r)
+        self.obs.append(observe(self.inst, False, self.seed + self.i))
+        self.i += 1
+        if self.i >= len(self.h):
+            self.done = True
+
+    def run(self):
+        while not self.done:
+            self.step()
+        return self
 
 
 def impl(c):
     h, twin, seed = c["payload"]
-    rh, obs_h, bare, wrap_calls = replay(h, seed)
     if c["tags"].get("pop"):
-        twin = regroup(votes_of(rh), random.Random(seed * 7919 + 13), nonempty=bool(rh))
-    rt, obs_t, _, _ = replay(twin, seed + 101)
-    return {"H": proto.norm(rh), "T": proto.norm(rt), "obsH": obs_h, "obsT": obs_t, "bare_raised": bare,
-            "wrap": proto.norm(wrap_calls)}
+        a = Replay(h, seed).run()
+        twin = regroup(votes_of(a.resolved), random.Random(seed * 7919 + 13), nonempty=bool(a.resolved))
+        b = Replay(twin, seed + 101).run()
+        inter = 0
+    elif seed % 2 == 0:
+        # two live instances in one process, filled alternately (shared class-level / default-argument / module state
+        # would leak from one to the other)
+        a, b = Replay(h, seed), Replay(twin, seed + 101)
+        while not (a.done and b.done):
+            a.step()
+            b.step()
+        inter = 1
+    else:
+        a = Replay(h, seed).run()
+        b = Replay(twin, seed + 101).run()
+        inter = 0
+    return {"H": proto.norm(a.resolved), "T": proto.norm(b.resolved), "obsH": a.obs, "obsT": b.obs,
+            "bare_raised": a.bare_raised, "wrap": proto.norm(a.wrap_calls), "interleaved": inter}
 
 
 def oracle_requests(c, r):
@@ -539,10 +700,14 @@ def canon(i, x):
 
 def compare_obs(step, a, b, who):
     """a: implementation, b: model"""
-    if len(a) != len(b):
+    if len(a) != len(b) + 3:
         return "%s step %d: observation shapes differ" % (who, step)
     has_orders = len(b[1]) > 0
-    for i in range(len(a)):
+    for j, i in enumerate((8, 9, 10)):
+        if sorted(a[len(b) + j]) != sorted(b[i]):
+            return "%s after operation %d: %s (first call): implementation %r, model %r" % (
+                who, step, NAMES[i], a[len(b) + j], b[i])
+    for i in range(len(b)):
         if i in STATS and not has_orders:
             continue
         if i in NOT_FRESH and step == 0:
@@ -584,7 +749,7 @@ def judge(c, r, mres):
 
 
 def _kinds(h):
-    return set(op[0] for op in h)
+    return set(op[0] for op in h if op[0] != K_MAINT)
 
 
 def nontrivial(c, r, m):
@@ -605,6 +770,17 @@ def stats(c, r, m):
         out.append("mode=" + c["tags"]["mode"])
     if c["tags"].get("exh"):
         out.append("exhaustive len=%d" % c["tags"]["exh"])
+    if vs and len(set(vs)) == len(vs):
+        out.append("round 5: non-empty history in which every multiplicity is 1 (results of the accessors poisoned "
+                   "after every step)")
+    for op in h:
+        if op[0] == K_MAINT:
+            out.append("round 5: between appends: " + MAINT[op[1][0]])
+    seed = c["payload"][2]
+    if any(op[0] == K_VM and op[1] and (seed + i) % 2 == 1 for i, op in enumerate(h)):
+        out.append("round 5: vote map with numpy.int64 counts")
+    if r.get("interleaved"):
+        out.append("round 5: history and twin replayed alternately on two live instances")
     # corners asked for by the coordinator (measured, see the evidence)
     orders = final[1]
     if orders:
@@ -644,7 +820,7 @@ def stats(c, r, m):
 def describe(c):
     kn = {0: "append_order", 1: "append_order_array", 2: "append_order_list", 3: "append_vote_map",
           4: "populate(which,nv,na,param,seed)", 5: "append_order_list(bare alternatives)",
-          6: "populate_X = append_vote_map(wrapper(sampler rows))"}
+          6: "populate_X = append_vote_map(wrapper(sampler rows))", 7: "maintenance / accessor call"}
     return {"history": [[kn[k], d] for k, d in c["payload"][0]],
             "twin": [[kn[k], d] for k, d in c["payload"][1]]}
 
